@@ -933,6 +933,25 @@ def r7_5_independent_clamps(ck, P):
                             flds |= {a[1].split('.')[-1] for a in f.atoms(o) if a[0] == 'field' and a[1].split('.')[-1] in ('x1', 'x2', 'y1', 'y2')}
                     axes = {q[0] for q in flds}
                     if axes and axis not in axes:
+                        # a test of the whole box (x2 <= MIN || y2 <= MIN || ...: every axis sends the box to the same place, where it
+                        # is discarded) is not a decision about one axis: the edge not taken leaves no box to clamp
+                        other = [q for q in t.d['succ'] if q != s_]
+                        whole_box = False
+                        for b2 in f.blocks:
+                            t2 = b2.term
+                            if t2 is t or t2.op != 'br' or not t2.a or not other or other[0] not in t2.d['succ']:
+                                continue
+                            c2, p2, o2 = f.cond(t2.a[0])
+                            if c2 is None or c2.op != 'icmp':
+                                continue
+                            f2 = set()
+                            for o in o2:
+                                if o[0] == 'v':
+                                    f2 |= {a[1].split('.')[-1] for a in f.atoms(o) if a[0] == 'field' and a[1].split('.')[-1] in ('x1', 'x2', 'y1', 'y2')}
+                            if axis in {q[0] for q in f2}:
+                                whole_box = True
+                        if whole_box:
+                            continue
                         bad = (t, sorted(flds)); break
                 where = '%s: clamp of %s at %s' % (f.name, lf, x.loc())
                 if bad:
@@ -1450,6 +1469,30 @@ def r7_8_range_test_siblings(ck, P):
                         sig = None; break
                 if sig is not None:
                     tests[x.d['p']].append((sorted(sig), x))
+            # the same tests written as a short-circuit chain (x2 <= MIN || y2 <= MIN || ...): comparisons of one edge with one limit
+            # whose branches all lead to the same block
+            SWP = {'slt': 'sgt', 'sgt': 'slt', 'sle': 'sge', 'sge': 'sle'}
+            chains = defaultdict(list)
+            for b in f.blocks:
+                t = b.term
+                if t.op != 'br' or not t.a:
+                    continue
+                c = f.v(t.a[0])
+                if c is None or c.op != 'icmp' or c.d['p'] not in SWP:
+                    continue
+                a, b_ = c.a
+                pr = c.d['p']
+                if a[0] == 'c':
+                    a, b_ = b_, a; pr = SWP[pr]
+                if b_[0] != 'c' or abs(int(b_[1])) < 30000:
+                    continue
+                e = edge(a)
+                if e is None:
+                    continue
+                chains[t.d['succ'][0]].append(('%s %s limit %s' % (e, pr, 'MAX' if int(b_[1]) > 0 else 'MIN'), c))
+            for tgt, items in chains.items():
+                if len(items) >= 4:
+                    tests['chain'].append((sorted(k for k, _ in items), items[0][1]))
             ck.saw(f)
             n = 0
             for pr, ts in sorted(tests.items()):
@@ -1741,3 +1784,91 @@ def r7_11_limits_are_type_limits(ck, P):
                 ck.violation(R, fn, 'missing clamp (%s)' % _w(u), '%s clamps only to %s of the limits [%d, %d] of its coordinate type' % (fn, sorted(have), lo, hi), next(iter(vals.values())).loc())
             else:
                 ck.ok(R, '%s/%s: clamps to [%d, %d]' % (u.name, fn, lo, hi))
+
+
+def r7_13_or_trick_exactness(ck, P, rid='C07-R13'):
+    """T-BIT (soundness of a bit trick): the or of several signed differences is negative iff one of them is, and non-negative iff all
+    are - but it is zero only if ALL are zero.  `(a | b | c | d) >= 0` and `< 0` are exact per-term tests; `<= 0` and `> 0` are not:
+    one term equal to 0 among positive ones goes undetected."""
+    R = ck.rule(rid, 'wherever the region code tests several coordinate differences at once by or-ing them, the comparison with 0 is one the trick is exact for (>= 0: all non-negative; < 0: one negative); a test "<= 0" / "> 0" on the or misses a single difference that is exactly 0, i.e. a box that lands exactly on the coordinate limit', floor=2)
+    n = 0
+    for u in units(P):
+        for fn, f in sorted(u.functions.items()):
+            for x in f.insts():
+                if x.op != 'icmp' or not (x.a[1][0] == 'c' and int(x.a[1][1]) == 0):
+                    continue
+                leaves = []; work = [x.a[0]]
+                while work:
+                    o = work.pop(); y = f.v(o)
+                    if y is not None and y.op == 'or':
+                        work.extend(y.a)
+                    else:
+                        leaves.append(o)
+                subs = [o for o in leaves if f.v(o) is not None and f.v(o).op == 'sub']
+                if len(leaves) < 2 or len(subs) != len(leaves):
+                    continue
+                n += 1; ck.saw(f)
+                where = '%s/%s: or of %d differences %s 0 at %s' % (u.name, fn, len(leaves), x.d['p'], x.loc())
+                if x.d['p'] in ('sge', 'slt'):
+                    ck.ok(R, where)
+                else:
+                    ck.violation(R, fn, 'or-ed range test at %s (%s)' % (x.loc(), _w(u)), '%s compares the or of %d differences with 0 using "%s": the or is 0 only when every difference is 0, so a single difference that is exactly 0 (an edge landing exactly on the limit) is not seen while the others are positive - the rectangle is kept, clamped to zero width, and the region reports points it does not have' % (fn, len(leaves), {'sle': '<=', 'sgt': '>', 'eq': '==', 'ne': '!='}.get(x.d['p'], x.d['p'])), x.loc())
+    if n == 0:
+        ck.incomplete(R, 'no or-ed difference test found')
+
+
+def r5_11_constructed_rectangle_validated(ck, P):
+    """sibling agreement: every exported function that makes a one-rectangle region out of caller-supplied numbers (x, y, width, height,
+    or a box pointer) checks that the rectangle has points before it uses it as a region."""
+    R = ck.rule('C05-R11', 'every exported region function that builds a single-rectangle region from its arguments (x, y, width, height or a caller\'s box copied into an extents field together with data = NULL) compares x1 with x2 and y1 with y2 of that rectangle first: a rectangle without points is the empty region, not a region with one rectangle', floor=8)
+    for u in units(P):
+        for fn, f in sorted(u.functions.items()):
+            if not f.exported:
+                continue
+            # stores of argument-derived values into some region's extents
+            ext = []
+            for x in f.insts():
+                if x.op != 'store':
+                    continue
+                st = [str(s) for s in f.path(x.a[1])[1]]
+                if len(st) >= 2 and st[-2].endswith('.extents') and st[-1].split('.')[-1] in ('x1', 'x2', 'y1', 'y2'):
+                    roots = common.value_arg_roots(f, x.a[0])
+                    dest_root = f.root(f.path(x.a[1]))
+                    if any(r[0] == 'arg' for r in roots) and not (dest_root[0] == 'arg' and ('arg', dest_root[1]) in roots):
+                        ext.append((x, st[-1].split('.')[-1]))
+            # whole-struct copies of a caller's box into an extents field
+            for c in f.calls():
+                if (c.callee or '').startswith('llvm.memcpy') and len(c.a) >= 2:
+                    dst = [str(s) for s in f.path(c.a[0])[1]]; srcr = f.root(f.path(c.a[1]))
+                    if dst and dst[-1].endswith('.extents') and srcr[0] == 'arg' and 'box' in f.params[srcr[1]][1]:
+                        ext.append((c, 'box'))
+            fields = {k for _, k in ext}
+            if not ({'x1', 'x2', 'y1', 'y2'} <= fields or 'box' in fields):
+                continue
+            # only constructors of a single-rectangle region: data = NULL is stored, or the local region is handed to another region function
+            if not any(x.op == 'store' and x.a[0][0] == 'n' and (f.last_field(f.path(x.a[1])) or '').endswith('.data') for x in f.insts()):
+                continue
+            ck.saw(f)
+            cmpd = set()
+            for x in f.insts():
+                if x.op != 'icmp' or x.d['p'] in ('eq', 'ne'):
+                    continue
+                ks = []
+                for o in x.a:
+                    y = f.v(o)
+                    while y is not None and y.op in ('sext', 'zext', 'trunc'):
+                        y = f.v(y.a[0])
+                    if y is not None and y.op == 'load':
+                        st = [str(s) for s in f.path(y.a[0])[1]]
+                        ks.append(st[-1].split('.')[-1] if st else None)
+                    else:
+                        ks.append(None)
+                if set(ks) == {'x1', 'x2'}:
+                    cmpd.add('x')
+                if set(ks) == {'y1', 'y2'}:
+                    cmpd.add('y')
+            where = '%s/%s' % (u.name, fn)
+            if cmpd == {'x', 'y'}:
+                ck.ok(R, where, 'x1/x2 and y1/y2 compared')
+            else:
+                ck.violation(R, fn, 'rectangle from arguments (%s)' % _w(u), '%s builds a one-rectangle region from its arguments without comparing %s: with a zero width or height (or an empty box) it produces a region that has no points but is reported non-empty, has one rectangle and is not equal to the empty region; the sibling constructors (init_rect, union_rect, init_with_extents) test the rectangle first' % (fn, ' and '.join(sorted({'x': 'x1 with x2', 'y': 'y1 with y2'}[k] for k in {'x', 'y'} - cmpd))), ext[0][0].loc())
